@@ -48,13 +48,19 @@ POINTS = {
     ("pandera/backends/polars/container.py", "_coerce_dtype_helper"),
     ("pandera/backends/polars/components.py", "coerce_dtype"), ("pandera/backends/polars/components.py", "run_checks"),
     ("pandera/backends/polars/base.py", "run_check"),
+    # lazy registration of the backends at the first validation of a process
+    ("pandera/api/base/schema.py", "get_backend"), ("pandera/api/base/schema.py", "register_backend"),
+    ("pandera/api/pandas/container.py", "register_default_backends"), ("pandera/api/pandas/array.py", "register_default_backends"),
+    ("pandera/api/pandas/components.py", "register_default_backends"),
+    ("pandera/api/dataframe/container.py", "register_default_backends"),
 }
 # files in which *every* function call is a gate (process-global registries shared by all schemas and backends)
 POINT_FILES = ("pandera/api/function_dispatch.py", "pandera/backends/pandas/register.py", "pandera/backends/polars/register.py")
 
 
 class Sched:
-    def __init__(self, schedule):
+    def __init__(self, schedule, patience=10):
+        self.patience = patience
         self.schedule = list(schedule)
         self.pos = 0
         self.cv = threading.Condition()
@@ -74,7 +80,7 @@ class Sched:
                         self.pos += 1
                     self.cv.notify_all()
                     return
-                if not self.cv.wait(timeout=10):
+                if not self.cv.wait(timeout=self.patience):
                     return  # safety valve: never deadlock the check
 
     def tracer(self, name):
@@ -92,8 +98,9 @@ class Sched:
             return None
         return tr
 
-    def run(self, jobs):
+    def run(self, jobs, copy_context=False):
         res = {}
+        import contextvars
 
         def worker(name, fn):
             sys.settrace(self.tracer(name))
@@ -107,7 +114,12 @@ class Sched:
                 with self.cv:
                     self.done.add(name)
                     self.cv.notify_all()
-        ths = [threading.Thread(target=worker, args=(n, f)) for n, f in jobs.items()]
+        if copy_context:
+            # workers that inherit the caller's context (asyncio.to_thread, copy_context().run): context copies are shallow
+            ctxs = {n: contextvars.copy_context() for n in jobs}
+            ths = [threading.Thread(target=lambda n=n, f=f: ctxs[n].run(worker, n, f)) for n, f in jobs.items()]
+        else:
+            ths = [threading.Thread(target=worker, args=(n, f)) for n, f in jobs.items()]
         for t in ths:
             t.start()
         for t in ths:
@@ -232,7 +244,16 @@ def jobsets():
             ddf = pd.DataFrame({"a": [1, -2]})
             return {"schemas": [sp, sd], "jobs": {"A": lambda: sp.validate(pdf), "B": lambda: sd.validate(ddf)},
                     "region": None, "name": "polars-dataframe-vs-pandas-same-builtins"}
-        sets += [polars_shared, polars_pandas, polars_shared_coerce, polars_shared_frame_dtype, polars_pandas_same_builtin]
+        def polars_inherited_context():
+            # distinct schemas, the workers run in copies of the caller's context (which holds a configuration object)
+            s1 = pap.DataFrameSchema({"a": pap.Column(int, pap.Check.gt(0))})
+            s2 = pap.DataFrameSchema({"a": pap.Column(int, pap.Check.gt(0))})
+            bad_df = pl.DataFrame({"a": [-1]})
+            lf = pl.LazyFrame({"a": [-1]})
+            return {"schemas": [s1, s2], "jobs": {"A": lambda: s1.validate(bad_df), "B": lambda: s2.validate(lf)},
+                    "region": None, "name": "polars-dataframe-vs-lazyframe-inherited-context", "copy_context": True}
+        sets += [polars_shared, polars_pandas, polars_shared_coerce, polars_shared_frame_dtype, polars_pandas_same_builtin,
+                 polars_inherited_context]
     except Exception:  # noqa: BLE001
         pass
     return sets
@@ -273,7 +294,11 @@ def run_jobset(rep, make, rng, n_random, exhaustive_len):
         fps = [c05.fp(s) for s in cur["schemas"]]
         cfg0 = (get_config_context(validation_depth_default=None), copy.copy(get_config_global()))
         jobs = {n: (lambda f=f: outcome_of(f)) for n, f in cur["jobs"].items()}
-        res = Sched(sched).run(jobs)
+        if info.get("copy_context"):
+            from pandera.config import reset_config_context
+            reset_config_context()          # the caller's context carries a configuration object
+            cfg0 = (get_config_context(validation_depth_default=None), copy.copy(get_config_global()))
+        res = Sched(sched).run(jobs, copy_context=bool(info.get("copy_context")))
         case = {"jobset": info["name"], "schedule": sched}
         rep.case(case, nontrivial=len(set(sched)) > 1)
         rep.count("jobset:" + info["name"])
@@ -294,6 +319,64 @@ def run_jobset(rep, make, rng, n_random, exhaustive_len):
             rep.property_failure(case, f"a schema is not as before the calls: {paths}", region=info["region"])
 
 
+COLD = r"""
+import json, sys, warnings
+warnings.simplefilter("ignore")
+sys.path.insert(0, "/verif")
+import pandas as pd
+from harness.c07 import Sched, outcome_of
+import pandera as pa
+sched = json.loads(sys.argv[1])
+sa = pa.DataFrameSchema({"a": pa.Column(int, pa.Check.gt(0))})
+sb = pa.DataFrameSchema({"b": pa.Column(float)}, strict=True)
+da, db = pd.DataFrame({"a": [1, 2]}), pd.DataFrame({"b": [1.5]})
+# (a thread parked inside an import or a cached function can hold a lock the other one needs: short patience)
+res = Sched(sched, patience=0.4).run({"A": lambda: outcome_of(lambda: sa.validate(da)), "B": lambda: outcome_of(lambda: sb.validate(db))})
+print("COLD-RESULT " + json.dumps({k: list(v) if isinstance(v, tuple) else v for k, v in res.items()}, default=str))
+"""
+
+
+def cold_start(rep, tier):
+    """the first validations of a process, concurrently, in a fresh interpreter per schedule (the backends register
+    themselves lazily at the first validation): both calls must return what they return alone"""
+    import os
+    import subprocess
+    from concurrent.futures import ThreadPoolExecutor
+    from .common import REPO
+    scheds = []
+    rng_i = range(0, 5) if tier == "quick" else range(0, 10)
+    rng_j = (1, 2, 4, 8) if tier == "quick" else range(1, 12)
+    for a, b in (("A", "B"), ("B", "A")):
+        for i in rng_i:
+            for j in rng_j:
+                scheds.append([a] * i + [b] * j + [a] * 60)
+    env = dict(os.environ, PYTHONPATH=f"{REPO}:/verif", PYTHONHASHSEED="0")
+
+    def one(sched):
+        try:
+            p = subprocess.run(["/venv/bin/python", "-W", "ignore", "-c", COLD, json.dumps(sched)], capture_output=True,
+                               text=True, env=env, timeout=180)
+        except subprocess.TimeoutExpired:
+            return sched, None, "timeout"
+        line = next((l for l in p.stdout.splitlines() if l.startswith("COLD-RESULT ")), None)
+        return sched, (json.loads(line[len("COLD-RESULT "):]) if line else None), p.stderr[-300:]
+    with ThreadPoolExecutor(max_workers=8) as ex:
+        results = list(ex.map(one, scheds))
+    want = None
+    for sched, res, err in results:
+        case = {"jobset": "cold-start", "schedule": sched}
+        rep.case(case, nontrivial=True)
+        rep.evaluations += 1
+        if res is None:
+            rep.count("cold-start:no-result")
+            continue
+        rep.count("cold-start:" + "/".join(str(res.get(n, ["?"])[0]) for n in ("A", "B")))
+        ok = all(res.get(n, [None])[0] == "ok" for n in ("A", "B"))
+        if not ok:
+            rep.property_failure(case, f"first validations of a process, concurrently: outcomes {res} (each returns its frame when run "
+                                       "alone)")
+
+
 def run(tier, replay=None):
     rep = Report(PROP, tier)
     regenerate(("skeletons",))
@@ -303,13 +386,20 @@ def run(tier, replay=None):
     sets = jobsets()
     if replay:
         case = json.loads(open(replay).read())["case"]
+        if case.get("jobset") == "cold-start":
+            cold_start(rep, "quick")
+            return rep.finish(rule="replay of the cold-start schedules")
         for make in sets:
             info = make()
             if info["name"] == case["jobset"]:
                 names = list(info["jobs"])
                 solo = {n: outcome_of(make()["jobs"][n]) for n in names}
                 cur = make()
-                res = Sched(case["schedule"]).run({n: (lambda f=f: outcome_of(f)) for n, f in cur["jobs"].items()})
+                if info.get("copy_context"):
+                    from pandera.config import reset_config_context
+                    reset_config_context()
+                res = Sched(case["schedule"]).run({n: (lambda f=f: outcome_of(f)) for n, f in cur["jobs"].items()},
+                                                  copy_context=bool(info.get("copy_context")))
                 bad = [n for n in names if res.get(n) != solo[n]]
                 rep.case(case)
                 if bad:
@@ -334,6 +424,7 @@ def run(tier, replay=None):
     ex_len = 4 if tier == "quick" else 8
     for make in sets:
         run_jobset(rep, make, rng, n_random, ex_len)
+    cold_start(rep, tier)
     rep.extra["schedules_exhaustive_prefix_length"] = ex_len
     return rep.finish(
         rule="job sets (pandas same schema object / distinct schema objects / regex column / three threads with a "
